@@ -162,6 +162,13 @@ def unparse(n: Optional[ast.AST]) -> str:
 # Propositional reasoning over branch atoms (finite truth table; no solver)
 # ---------------------------------------------------------------------------
 
+def _is_bool_cast(e) -> bool:
+    """bool(<comparison / boolean expression>): the truth value itself"""
+    return (isinstance(e, ast.Call) and len(e.args) == 1 and not e.keywords and not isinstance(e.args[0], ast.Starred)
+            and ((isinstance(e.func, ast.Name) and e.func.id == "bool") or (isinstance(e.func, ast.Attribute) and e.func.attr == "bool_"))
+            and isinstance(e.args[0], (ast.Compare, ast.BoolOp, ast.UnaryOp)))
+
+
 def bool_skeleton(e: ast.expr, atoms: List[ast.expr]):
     """Compile a boolean expression into a function valuation -> bool over the
     list `atoms` (extended in place; atoms are identified by normalised text)."""
@@ -173,6 +180,8 @@ def bool_skeleton(e: ast.expr, atoms: List[ast.expr]):
     if isinstance(e, ast.UnaryOp) and isinstance(e.op, ast.Not):
         s = bool_skeleton(e.operand, atoms)
         return lambda val, s=s: not s(val)
+    if _is_bool_cast(e):
+        return bool_skeleton(e.args[0], atoms)
     if isinstance(e, ast.Constant) and isinstance(e.value, bool):
         return lambda val, c=e.value: c
     if isinstance(e, ast.IfExp):
@@ -180,6 +189,8 @@ def bool_skeleton(e: ast.expr, atoms: List[ast.expr]):
         return lambda val, c_=c_, a_=a_, b_=b_: a_(val) if c_(val) else b_(val)
     # equality / inequality of two truth values: (a < b) == (m is None)
     def _boolish(x):
+        if _is_bool_cast(x):
+            return True
         return isinstance(x, (ast.Compare, ast.BoolOp)) or (isinstance(x, ast.UnaryOp) and isinstance(x.op, ast.Not)) or (isinstance(x, ast.Constant) and isinstance(x.value, bool)) \
             or (isinstance(x, ast.IfExp) and _boolish(x.body) and _boolish(x.orelse))
 
@@ -279,15 +290,18 @@ def _inline_bool_names(fn: ast.FunctionDef, e: ast.expr, at: Optional[Node], dep
             return ast.UnaryOp(op=ast.Not(), operand=inline(x.operand))
         if isinstance(x, ast.IfExp):
             return ast.IfExp(test=inline(x.test), body=inline(x.body), orelse=inline(x.orelse))
-        if isinstance(x, ast.Compare) and len(x.ops) == 1 and isinstance(x.ops[0], (ast.Eq, ast.NotEq, ast.Is, ast.IsNot)) and isinstance(x.left, ast.Name) and isinstance(x.comparators[0], ast.Name):
-            # equality of two local truth values
+        if _is_bool_cast(x):
+            return inline(x.args[0])
+        if isinstance(x, ast.Compare) and len(x.ops) == 1 and isinstance(x.ops[0], (ast.Eq, ast.NotEq, ast.Is, ast.IsNot)) and all(isinstance(y, ast.Name) or _is_bool_cast(y) or isinstance(y, (ast.BoolOp, ast.Compare)) or (isinstance(y, ast.UnaryOp) and isinstance(y.op, ast.Not)) for y in (x.left, x.comparators[0])) \
+                and not (isinstance(x.comparators[0], ast.Constant)):
+            # equality of two truth values (local names / comparisons)
             l_, r_ = inline(x.left), inline(x.comparators[0])
             if not isinstance(l_, ast.Name) and not isinstance(r_, ast.Name):
                 return ast.Compare(left=l_, ops=x.ops, comparators=[r_])
             return x
         if isinstance(x, ast.Name):
             ds = flow.reaching(at, x.id)
-            if len(ds) == 1 and ds[0].kind == "assign" and not ds[0].path and isinstance(ds[0].value, (ast.BoolOp, ast.Compare, ast.UnaryOp, ast.IfExp)):
+            if len(ds) == 1 and ds[0].kind == "assign" and not ds[0].path and (isinstance(ds[0].value, (ast.BoolOp, ast.Compare, ast.UnaryOp, ast.IfExp)) or _is_bool_cast(ds[0].value)):
                 return _inline_bool_names(fn, _copy.deepcopy(ds[0].value), ds[0].node, depth + 1)
         return x
 
